@@ -180,6 +180,44 @@ def check_case(ctx: Ctx, c: Dict[str, Any], k: int = 0) -> None:
             pts = gt.points(ax).reshape(1, *tshape, D)
             o = guarded("SampleImage", lambda: sm(pts, data.unsqueeze(0).unsqueeze(0)), axes=ax.value)
             cmp_lin("SampleImage", o, axes=ax.value)
+    # the module's other input forms return the same samples: dict of named images, data=/mask= keywords
+    sm = guarded("SampleImage", lambda: SampleImage(target=gt, source=gs, sampling="linear", padding=pad), form="inputs")
+    if sm is not None:
+        tc = gt.coords(align_corners=gt.align_corners()).unsqueeze(0)
+        d4 = data.unsqueeze(0).unsqueeze(0)
+        o = guarded("SampleImage", lambda: sm(tc, {"a": d4, "b": d4.clone()}), form="dict")
+        if o is not None:
+            if not isinstance(o, dict) or set(o) != {"a", "b"}:
+                bad("SampleImage", f"dict input returns {type(o).__name__} with keys {sorted(o) if isinstance(o, dict) else None}", form="dict")
+            else:
+                cmp_lin("SampleImage[dict]", o["a"], form="dict")
+                cmp_lin("SampleImage[dict]", o["b"], form="dict", key="b")
+        mk = torch.ones_like(d4)
+        o = guarded("SampleImage", lambda: sm(tc, data=d4, mask=mk), form="data+mask")
+        if o is not None:
+            if not (isinstance(o, tuple) and len(o) == 2):
+                bad("SampleImage", f"data=/mask= returns {type(o).__name__}", form="data+mask")
+            else:
+                cmp_lin("SampleImage[data+mask]", o[0], form="data+mask")
+                mo = o[1].reshape(tshape)
+                if bool((mo[inhull & margin] == 0).any()):
+                    bad("SampleImage[data+mask]", "the sampled all-ones mask is zero at target samples strictly inside the source field of view", form="data+mask", what="mask")
+        o = guarded("SampleImage", lambda: sm(tc, data=d4), form="data")
+        cmp_lin("SampleImage[data=]", o, form="data")
+    # align_centers=True: the target grid is moved so that its center coincides with the source's; same as sampling on that moved grid
+    gt_c = gt.center(gs.center())
+    ref_c = guarded("Image.sample", lambda: img.sample(gt_c, mode="linear", padding=pad).tensor(), role="align_centers reference")
+    for cls_name in ("SampleImage", "TransformImage", "AlignImage"):
+        import deepali.modules.sample as MS
+
+        cls_c = getattr(MS, cls_name)
+        smc = guarded(cls_name, lambda: cls_c(target=gt, source=gs, sampling="linear", padding=pad, align_centers=True), align_centers=True)
+        if smc is None or ref_c is None:
+            continue
+        tc = gt.coords(align_corners=gt.align_corners()).unsqueeze(0)
+        o = guarded(cls_name, (lambda: smc(tc, data.unsqueeze(0).unsqueeze(0))) if cls_name == "SampleImage" else (lambda: smc(None, data.unsqueeze(0).unsqueeze(0))), align_centers=True)
+        if o is not None and (o.numel() != ref_c.numel() or max_err(o.reshape(ref_c.shape), ref_c) > 1e-4 * max(1.0, float(ref_c.abs().max()))):
+            bad(cls_name, f"align_centers=True differs from sampling on the target grid moved onto the source's center by {max_err(o.reshape(ref_c.shape), ref_c) if o.numel() == ref_c.numel() else 'shape'}", align_centers=True)
     # TransformImage / AlignImage without a transform are plain resamplers from the source to the target grid
     from deepali.modules.sample import AlignImage, TransformImage
 
